@@ -2,6 +2,7 @@
 # tools/confirm_mutant.sh <ID> <N> : confirm in the scratch worktree /tmp/mut/<ID> that patchN
 #   compiles, keeps the 47 tests green, and that demoN passes without / fails with the change.
 ID=$1; N=$2; W=/tmp/mut/$ID; O=/tmp/mut/$ID-out
+case $ID in C17*) export RUSTFLAGS="--cfg roughenough_verif";; esac
 cd $W || exit 2
 git checkout -q -- . ; git clean -qfd -e target -e Cargo.lock
 mkdir -p tests
